@@ -1,10 +1,10 @@
 CONSTANTS
     Bound = 40
     ErrFactor = 3
-    XNums = {0, 1, 2, 3, 4, 5, 6, 7, 8, 9, 10, 11, 12}
-    XDen = 4
-    CmpDen = 4
-    CmpMaxNum = 100
+    XNums = {0, 1, 2, 3, 4, 5, 6}
+    XDen = 2
+    CmpDen = 8
+    CmpMaxNum = 200
     Order = 8
     ExcuseKnown = TRUE
 SPECIFICATION Spec
